@@ -113,6 +113,13 @@ type Cluster struct {
 	// WireOpts, if set, returns extra core.Wire options for node i, applied before the async-retry
 	// option (e.g. core.WithTracking with a recording tracker, as production wiring does).
 	WireOpts func(node int) []core.WireOption
+	// BeaconSetup, if set, is called with every freshly built node (its Beacon stub is complete, no
+	// other component exists yet): a harness can install further beacon endpoints (simbeacon.Client.
+	// ProposalFn) or wrap the existing ones (Beacon.AttData). nil = today's beacon stub.
+	BeaconSetup func(n *Node)
+	// WithGraffiti makes every node's fetcher use a real (default-graffiti) GraffitiBuilder, which the
+	// proposer path dereferences; false = nil builder as before (attester-only harnesses).
+	WithGraffiti bool
 }
 
 // Node is one charon node.
@@ -344,6 +351,9 @@ func (c *Cluster) StartNode(i int) *Node {
 		}
 		return m
 	}
+	if c.BeaconSetup != nil {
+		c.BeaconSetup(n)
+	}
 	eth2Cl := n.Beacon
 
 	deadlineFunc, err := core.NewDutyDeadlineFunc(ctx, eth2Cl)
@@ -370,7 +380,16 @@ func (c *Cluster) StartNode(i int) *Node {
 	} else {
 		n.AggSigDB = aggsigdb.NewMemDB(deadliner("aggsigdb"))
 	}
-	fetch, err := fetcher.New(eth2Cl, func(core.PubKey) string { return "" }, false, nil, eth2p0.Slot(math.MaxInt64), false)
+	var graffiti *fetcher.GraffitiBuilder
+	if c.WithGraffiti {
+		var pks []core.PubKey
+		for _, v := range c.Vals {
+			pks = append(pks, v.CorePK)
+		}
+		graffiti, err = fetcher.NewGraffitiBuilder(pks, nil, false, eth2Cl) // nil graffiti: the default one, no beacon call
+		must(err)
+	}
+	fetch, err := fetcher.New(eth2Cl, func(core.PubKey) string { return "" }, false, graffiti, eth2p0.Slot(math.MaxInt64), false)
 	must(err)
 	n.Sched = &Sched{defs: map[core.Duty]core.DutyDefinitionSet{}}
 
